@@ -275,3 +275,66 @@ macro_rules! h_version_from_str_neigh {
         }
     };
 }
+
+// native replay body + translator-validation oracle for the name lookups decided by engine E2
+#[cfg(not(kani))]
+fn n_lookup_name(table: u8, s: &[u8]) -> Option<(usize, &'static str)> {
+    match table {
+        0 => AttributeName::from_bytes(s).ok().map(|x| (x as usize, x.to_str())),
+        1 => EnumItem::from_bytes(s).ok().map(|x| (x as usize, x.to_str())),
+        _ => ElementName::from_bytes(s).ok().map(|x| (x as usize, x.to_str())),
+    }
+}
+
+#[cfg(not(kani))]
+pub fn n_c18_names() {
+    let table = vk::any_u8();
+    let mode = vk::any_u8();
+    if mode == 0 {
+        // completeness: item index -> text -> item
+        let i = vk::any_u16();
+        let text: &'static str = match table {
+            0 => { assert!(i < 101, "VK_REPLAY_SHAPE"); unsafe { core::mem::transmute::<u16, AttributeName>(i) }.to_str() }
+            1 => { assert!(i < 2810, "VK_REPLAY_SHAPE"); unsafe { core::mem::transmute::<u16, EnumItem>(i) }.to_str() }
+            _ => { assert!(i < 6459, "VK_REPLAY_SHAPE"); unsafe { core::mem::transmute::<u16, ElementName>(i) }.to_str() }
+        };
+        let r = n_lookup_name(table, text.as_bytes());
+        vk_check!(r.is_some(), "the text of an item is not accepted by from_bytes");
+        vk_check!(r.unwrap().0 == i as usize, "text -> item returns a different item");
+    } else {
+        let len = vk::any_usize();
+        let mut v = std::vec::Vec::new();
+        let mut k = 0;
+        while k < len {
+            v.push(vk::any_u8());
+            k += 1;
+        }
+        if let Some((_, text)) = n_lookup_name(table, &v) {
+            vk_check!(bytes_eq(text.as_bytes(), &v), "from_bytes accepted a text that is not the item's text");
+        }
+    }
+}
+
+#[cfg(all(test, not(kani)))]
+#[test]
+fn verif_oracle_names() {
+    let Ok(inp) = std::env::var("VERIF_ORACLE_IN") else { return; };
+    let out_path = std::env::var("VERIF_ORACLE_OUT").unwrap();
+    let text = std::fs::read_to_string(inp).unwrap();
+    let mut out = std::string::String::new();
+    let mut any = false;
+    for line in text.lines() {
+        let f: std::vec::Vec<&str> = line.split_whitespace().collect();
+        if f.len() < 3 || f[0] != "name" { continue; }
+        any = true;
+        let table: u8 = f[1].parse().unwrap();
+        let b: std::vec::Vec<u8> = if f[2] == "-" { std::vec::Vec::new() } else { (0..f[2].len() / 2).map(|i| u8::from_str_radix(&f[2][2 * i..2 * i + 2], 16).unwrap()).collect() };
+        match n_lookup_name(table, &b) {
+            Some((i, _)) => out.push_str(&std::format!("Ok {}\n", i)),
+            None => out.push_str("Err\n"),
+        }
+    }
+    if any {
+        std::fs::write(out_path, out).unwrap();
+    }
+}
